@@ -19,6 +19,9 @@ type Reader struct {
 	Lookups   bool // check every lookup form against the iterator
 	WrongKind bool // check that kind-inappropriate accessors give ErrWrongKind (never panic)
 	Typed     bool // typed node: absent values are legal and read as val.Absent
+	// LenientKeyNode: LookupByNode with a plain basicnode string may be refused with an error by
+	// maps that insist on key nodes of their own key type (typed maps and their representations)
+	LenientKeyNode bool
 	// ListIdxLoose: do not require list iterator indices to be 0..n-1 (never set by default)
 	MaxNodes int // safety valve
 	count    int
@@ -26,7 +29,10 @@ type Reader struct {
 
 var Plain = Reader{}
 var Full = Reader{Lookups: true, WrongKind: true}
-var FullTyped = Reader{Lookups: true, WrongKind: true, Typed: true}
+var FullTyped = Reader{Lookups: true, WrongKind: true, Typed: true, LenientKeyNode: true}
+
+// FullRepr reads the representation node of a typed node.
+var FullRepr = Reader{Lookups: true, WrongKind: true, LenientKeyNode: true}
 
 // Read reads n. Any inconsistency or panic is returned as an error.
 func (r Reader) Read(n datamodel.Node) (v val.V, err error) {
@@ -287,6 +293,11 @@ func (r *Reader) readMap(n datamodel.Node, path string) (val.V, error) {
 				if err != nil {
 					if cv.K == val.Absent && r.Typed {
 						// an absent struct field may be reported as "not there" by a lookup
+						continue
+					}
+					if r.LenientKeyNode && form == "LookupByNode(basic string)" {
+						// a typed map may insist on key nodes of its own key type: an error (not a
+						// panic) is a documented answer to a foreign key node
 						continue
 					}
 					return val.V{}, fmt.Errorf("at %q: %s: %w", cp, form, err)
